@@ -63,14 +63,11 @@ def _pair(d, t, kind="axi_shared_to", **flags):
 
 def configs(tier):
     """-> (main, demos): main = faulty slave that stays silent once the time-out has expired and answers what it
-    has accepted (every clause but ForcedResponseId must hold), demos = one-DUT demonstrations of the listed findings"""
+    has accepted (every clause must hold), demos = one-DUT demonstrations of the listed findings"""
     main, demo = [], []
     for d in ("w", "r"):
         for t in ((1, 2) if tier == "quick" else (1, 2, 3, 4, 8)):
             main.append(_pair(d, t))
-    # the forced response does not carry the id of the request (all clauses, both directions)
-    demo.append(_pair("r", 2, axi_forced_id=1, nofollowup=True))
-    demo.append(_pair("w", 2, axi_forced_id=1, nofollowup=True))
     # a slave that accepts a burst and then never answers it
     demo.append(_pair("r", 2, mute=1, nofollowup=True))
     # the slave accepts the request in the cycles in which the interconnect is already terminating it
